@@ -356,6 +356,8 @@ def model_save_quantized_weights(model, filename=None, custom_objects={}):
           # during hardware inference to get the fixed point weights
           scale = scale * m_i / m
           has_scale = True
+          # keep "signs" aligned with the weights (one entry per weight)
+          signs.append([])
           scales.append(scale)
         else:
           hw_weight = weight
